@@ -1,7 +1,4 @@
-use std::{
-    hash::Hasher,
-    io::{self, BufRead},
-};
+use std::io::{self, BufRead};
 
 use byteorder::{BigEndian, ByteOrder};
 use bytes::{BufMut, Bytes, BytesMut};
@@ -280,17 +277,30 @@ impl PlainSecretParams {
         alg: PublicKeyAlgorithm,
         public_params: &PublicParams,
     ) -> Result<Self> {
-        let params = Self::try_from_reader_inner(&mut i, alg, public_params)?;
         if version == KeyVersion::V3 || version == KeyVersion::V4 {
-            let checksum = i.read_arr::<2>()?;
-            params.compare_checksum_simple(&checksum)?;
+            // The two-octet checksum covers the octets of the secret material as they were
+            // stored, not a re-encoding of the parsed values (MPIs need not be minimally encoded).
+            let data = Zeroizing::new(i.rest()?.to_vec());
+            ensure!(data.len() >= 2, "missing checksum");
+            let (material, checksum) = data.split_at(data.len() - 2);
+
+            let mut reader = material;
+            let params = Self::try_from_reader_inner(&mut reader, alg, public_params)?;
+
+            ensure_eq!(
+                BigEndian::read_u16(checksum),
+                checksum::calculate_simple(material),
+                "Invalid checksum"
+            );
             ensure!(
-                !i.has_remaining()?,
+                reader.is_empty(),
                 "failed to process full secret key material"
             );
+
+            return Ok(params);
         }
 
-        Ok(params)
+        Self::try_from_reader_inner(&mut i, alg, public_params)
     }
 
     pub fn string_to_key_id(&self) -> u8 {
@@ -725,17 +735,6 @@ impl PlainSecretParams {
             sum += 2;
         }
         sum
-    }
-
-    fn compare_checksum_simple(&self, other: &[u8]) -> Result<()> {
-        let mut hasher = checksum::SimpleChecksum::default();
-        self.to_writer_raw(&mut hasher)?;
-        ensure_eq!(
-            BigEndian::read_u16(other),
-            hasher.finish() as u16,
-            "Invalid checksum"
-        );
-        Ok(())
     }
 
     fn to_writer_raw<W: io::Write>(&self, writer: &mut W) -> Result<()> {
